@@ -152,12 +152,62 @@ def c_arc_clone(m, st, f, a): return deref(a[0])
 
 @contract(r'^<(Arc|Rc|Box)<.*> as PartialEq>::(eq|ne)$', 3)
 def c_arc_eq(m, st, f, a):
+    """Arc<T> == Arc<T> is T == T"""
     x, y = sv(a[0]), sv(a[1])
     neg = f.endswith('::ne')
     if isinstance(x, StrV) or isinstance(y, StrV):
         r = str_eq(as_str(x), as_str(y))
         return b_not(r) if neg else r
-    return NotImplemented
+    if isinstance(x, Agg) and (x.ty == 'Vec' or x.ty is None):
+        return seq_eq(m, st, x, y, neg)
+    rt = m.runtime_type(x)
+    if rt and m.idx.impls.get((rt, 'PartialEq', 'eq')):
+        inner = lambda r: r if not (isinstance(r, Ref) and isinstance(deref(r), Ref)) else inner(deref(r))
+        if neg: return call_then(m, st, FnItem('<%s as PartialEq>::eq' % rt), [inner(a[0]), inner(a[1])], lambda m, st, s, r: b_not(r))
+        m.call_fn(st, '<%s as PartialEq>::eq' % rt, [inner(a[0]), inner(a[1])], m.cur_ret)
+        return PUSHED
+    r = _eq_vals(m, st, x, y)
+    return b_not(r) if neg else r
+
+
+class SeqEq(Native):
+    """element-wise equality of two sequences whose elements have their own PartialEq (crate impls are called)"""
+
+    def __init__(self, xs, ys, neg, ret):
+        self.xs, self.ys, self.neg, self.ret, self.i = xs, ys, neg, ret, 0
+
+    def step(self, m, st):
+        if self.i >= len(self.xs):
+            m.do_return(st, not self.neg); return
+        x, y = self.xs[self.i], self.ys[self.i]
+        self.i += 1
+        rt = m.runtime_type(x)
+        if rt and m.idx.impls.get((rt, 'PartialEq', 'eq')):
+            inner = lambda r: r if not (isinstance(r, Ref) and isinstance(deref(r), Ref)) else inner(deref(r))
+            ry = m.runtime_type(y)
+            if ry != rt:
+                m.do_return(st, bool(self.neg)); return
+            m.call_fn(st, '<%s as PartialEq>::eq' % rt, [inner(x), inner(y)], ('native',))
+        else:
+            self.recv(m, st, _eq_vals(m, st, x, y))
+
+    def recv(self, m, st, v):
+        if not bool_val(m, st, v):
+            st.frames.pop(); m.deliver(st, self.ret, True if self.neg else False)
+
+
+def seq_eq(m, st, x, y, neg=False):
+    if len(x.f) != len(y.f): return True if neg else False
+    xs = [e if isinstance(e, Ref) else Ref(Cell(e)) for e in x.f]; ys = [e if isinstance(e, Ref) else Ref(Cell(e)) for e in y.f]
+    st.frames.append(SeqEq(xs, ys, neg, m.cur_ret))
+    return PUSHED
+
+
+@contract(r'^<(&?Vec<.*>|&?\[.*\]) as PartialEq(<.*>)?>::(eq|ne)$', 4)
+def c_vec_eq(m, st, f, a):
+    x, y = sv(a[0]), sv(a[1])
+    if isinstance(x, StrV) or isinstance(y, StrV): return NotImplemented
+    return seq_eq(m, st, x, y, f.endswith('::ne'))
 
 
 # ---------------------------------------------------------------------------------------------- Option / Result
@@ -1457,7 +1507,7 @@ def _eq_vals(m, st, x, y):
     raise Inconclusive('structural equality of %r' % (x,))
 
 
-@contract(r'^<(\(.*\)|std::option::Option<.*>|Option<.*>|Vec<.*>|\[.*\]|&\[.*\]|&Vec<.*>|Arc<\[.*\]>|ReplacementEnforce) as PartialEq(<.*>)?>::(eq|ne)$', 6)
+@contract(r'^<(\(.*\)|std::option::Option<.*>|Option<.*>|ReplacementEnforce) as PartialEq(<.*>)?>::(eq|ne)$', 6)
 def c_struct_eq(m, st, f, a):
     r = _eq_vals(m, st, a[0], a[1])
     return b_not(r) if f.endswith('::ne') else r
@@ -1749,6 +1799,7 @@ _finish_memo = {}
 
 @contract(r'^<.* as Hasher>::finish$', 3)
 def c_hasher_finish(m, st, f, a):
+    """finish() is an uninterpreted INJECTIVE function of the written stream ('up to collisions of the 64-bit hasher')"""
     from .textmodel import HasherV
     h = sv(a[0])
     if not isinstance(h, HasherV): return NotImplemented
@@ -1756,6 +1807,12 @@ def c_hasher_finish(m, st, f, a):
     v = _finish_memo.get(key)
     if v is None:
         v = z3.BitVec('fxhash_%d' % len(_finish_memo), 64); _finish_memo[key] = v
+    seen = st.extra.setdefault('finishes', [])
+    from jobs.eqhash import log_eq
+    for (v2, log2) in seen:
+        if v2 is v: continue
+        st.pc.append(zb(v == v2) == zb(log_eq(list(h.log), log2)))
+    seen.append((v, list(h.log)))
     return IntV(v, 'u64')
 
 
@@ -1777,3 +1834,50 @@ def c_dm_entry_or_insert(m, st, f, a):
 @contract(r'^(dashmap::)?mapref::one::Ref(Mut)?::<.*>::(value|value_mut)$', 2)
 def c_dm_ref_value(m, st, f, a):
     return deref(a[0])
+
+
+@contract(r'^<(OnceLock|OnceCell|std::sync::OnceLock|std::cell::OnceCell)<.*> as PartialEq>::(eq|ne)$', 2)
+def c_once_eq(m, st, f, a):
+    """std: two OnceLocks are equal iff their contents (initialised or not) are equal"""
+    r = _eq_vals(m, st, sv(a[0]).f[0], sv(a[1]).f[0])
+    return b_not(r) if f.endswith('ne') else r
+
+
+# ---------------------------------------------------------------------------------------------- Any / TypeId (type-id contract: equal iff same concrete type)
+@contract(r'^<.* as Any>::type_id$|^TypeId::of::<', 3)
+def c_type_id(m, st, f, a):
+    if f.startswith('TypeId::of::<'):
+        t = f[len('TypeId::of::<'):-1]
+        from .mir import strip_generics
+        return Opaque('TypeId', strip_generics(t).split('::')[-1])
+    return Opaque('TypeId', m.runtime_type(a[0]))
+
+
+@contract(r'^<TypeId as PartialEq>::(eq|ne)$', 3)
+def c_type_id_eq(m, st, f, a):
+    x, y = sv(a[0]), sv(a[1])
+    r = x.data == y.data
+    return (not r) if f.endswith('ne') else r
+
+
+@contract(r"^<\(?dyn Any( \+ 'static)?( \+ Send)?( \+ Sync)?\)?>::(downcast_ref|is)::<", 3)
+def c_downcast_ref(m, st, f, a):
+    from .mir import strip_generics
+    t = f[f.index('::<', f.index('>::')) + 3:-1]
+    want = strip_generics(t).split('::')[-1]
+    rt = m.runtime_type(a[0])
+    x = a[0]
+    while isinstance(x, Ref) and isinstance(deref(x), Ref): x = deref(x)
+    if f.split('>::')[1].startswith('is'): return rt == want
+    return some(x) if rt == want else none()
+
+
+@contract(r'^<&(mut )?[A-Z][A-Za-z0-9_:<>\', ]* as PartialEq(<.*>)?>::(eq|ne)$', 7)
+def c_ref_eq(m, st, f, a):
+    """impl PartialEq<&B> for &A: compares the referents"""
+    inner = re.sub(r'^<&(mut )?', '<', f)
+    inner = re.sub(r' as PartialEq<&(mut )?', ' as PartialEq<', inner)
+    x, y = deref(a[0]), deref(a[1])
+    if not (isinstance(x, Ref) and isinstance(y, Ref)): return NotImplemented
+    m.call_fn(st, inner, [x, y], m.cur_ret)
+    return PUSHED
